@@ -212,6 +212,10 @@ def run(ctx):
             ops += gen_scenario(ctx.rng)
     impl = ctx.go_run(binary, "TestVerifC41", ops)
     crash = ctx.last_go_crash
+    timed_out = "HARNESS-TIMEOUT" in impl
+    if timed_out:
+        impl = impl[:impl.index("HARNESS-TIMEOUT")]
+        ctx.notes.append("harness watchdog fired: remaining scenarios not executed (harness error, not a violation)")
     model = ctx.lean_run(ops)
     if model is None:
         proofs_ok = False
@@ -219,13 +223,26 @@ def run(ctx):
 
     def fails(cand):
         out = ctx.go_run(binary, "TestVerifC41", cand)
+        if "HARNESS-TIMEOUT" in out:
+            out = out[:out.index("HARNESS-TIMEOUT")]
+            return oracle(cand[:len(out)], out) is not None
         out += ["<missing>"] * (len(cand) - len(out))
         return oracle(cand, out) is not None
 
-    nviol = ndiff = 0
+    nviol = ndiff = dropped = 0
     scs = split_scenarios(ops)
     for a, b in scs:
         g_ops = ops[a:b]
+        if timed_out and len(impl) < b:
+            # cut short by the watchdog: judge what was observed, compare nothing
+            dropped += 1
+            part = impl[a:b]
+            msg = oracle(g_ops[:len(part)], part) if part else None
+            if msg:
+                nviol += 1
+                ctx.violation("property", msg, signature={"oracle": msg[:70]},
+                              replay={"ops": g_ops, "impl": part, "note": "scenario did not finish (watchdog)"})
+            continue
         g_impl = impl[a:b] + ["<missing>"] * (b - a - len(impl[a:b]))
         g_model = model[a:b]
         text = " ".join(g_impl)
@@ -265,7 +282,12 @@ def run(ctx):
                               replay={"ops": g_ops, "impl": g_impl, "model": g_model,
                                       "correspondence": "Drivers/C41.lean vs node.go Survey/handleSurveyResponse"},
                               no_input=(nviol == 0))
-    ctx.traces_validated = len(scs)
+    ctx.traces_validated = len(scs) - dropped
+    ctx.extra["scenarios_dropped_by_harness_timeout"] = dropped
+    if scs and dropped > 0.2 * len(scs) and nviol == 0:
+        ctx.violation("correspondence", "the harness could not drive more than 20% of the scenarios (watchdog)",
+                      signature={"kind": "harness-timeout"}, replay={"dropped": dropped, "total": len(scs)},
+                      no_input=True)
     ctx.extra["disagreements"] = ndiff
     ctx.extra["ops"] = len(ops)
     if not proofs_ok:
